@@ -690,3 +690,55 @@ RECIPES += [
     ("C04", "neutral", [], F_, _WR, _wr_dictcomp("_bigmat", "_nonbigmat"), "write: writers from a dictionary comprehension over (layout, name tail) pairs"),
     ("C04", "break", ["C04-R7"], F_, _WR, _wr_dictcomp("_nonbigmat", "_bigmat"), "write: dictionary comprehension with the sparse name tails exchanged"),
 ]
+
+
+# ---- last pass: R10, the reader's format autodetection on the headers the writers produce
+_DF = "        if min(bytes_[:4]) == 0:\n"
+RECIPES += [
+    ("C04", "break", ["C04-R10"], F_, _DF, "        if not bytes_[:8].strip().isdigit():\n",
+     "_decode_format: 'ASCII starts with an 8-character count' - the 16-wide header (rows > 9999999) starts with 8 blanks"),
+    ("C04", "break", ["C04-R10"], F_, _DF, "        if bytes_[0] == 0:\n", "_decode_format: only the first byte is tested - a little-endian record length starts with 0x18"),
+    ("C04", "break", ["C04-R10"], F_, _DF, "        if not bytes_[:16].replace(b' ', b'').isdigit():\n",
+     "_decode_format: 'blanks and digits only' - the bigmat header carries a minus sign in the first 16 bytes"),
+    ("C04", "break", ["C04-R10"], F_, _DF, "        if not bytes_[:4].strip().isdigit():\n",
+     "_decode_format: the first four characters of an ASCII header are blank for up to 9999 columns"),
+    ("C04", "break", ["C04-R10"], F_, "            if reclen <= 48:\n", "            if reclen < 24:\n", "_decode_format: byte-order test excludes the record length 24 itself"),
+    ("C04", "break", ["C04-R10"], F_, '            if reclen <= 48:\n                self._endian = "<"\n', '            if reclen <= 48:\n                self._endian = ">"\n',
+     "_decode_format: little-endian record length answered with '>'"),
+    ("C04", "break", ["C04-R10"], F_, "            if reclen == 24:\n", "            if reclen == 48:\n", "_decode_format: 32-bit files taken for 64-bit ones"),
+    ("C04", "neutral", [], F_, _DF, "        if 0 in bytes_[:4]:\n", "_decode_format: membership test for the zero byte"),
+    ("C04", "neutral", [], F_, _DF, "        if any(b == 0 for b in bytes_[:4]):\n", "_decode_format: generator over the first four bytes"),
+    ("C04", "neutral", [], F_, _DF, "        if not (bytes_[:4].isspace() or bytes_[:4].strip().isdigit()):\n",
+     "_decode_format: 'blank or blank-padded digits' in the first four characters (true for both integer widths)"),
+    ("C04", "neutral", [], F_, '            reclen = np.frombuffer(bytes_[:4], "<u4")\n', '            reclen = int.from_bytes(bytes_[:4], "little")\n',
+     "_decode_format: int.from_bytes for the little-endian record length"),
+    ("C04", "neutral", [], F_, '                reclen = np.frombuffer(bytes_[:4], ">u4")\n', '                (reclen,) = struct.unpack(">I", bytes_[:4])\n',
+     "_decode_format: struct.unpack for the big-endian record length"),
+    ("C04", "neutral", [], F_, "            if reclen <= 48:\n", "            if reclen < 256:\n", "_decode_format: any bound below 2^24 separates the byte orders of 24 / 48"),
+]
+
+
+# ---- last pass: R11, raw bytes of an array written by a binary writer must be in the requested byte order
+_PK = '            f.write(struct.pack(endian + ("%dd" % elems), *v))\n'
+_PS = '            f.write(colTrailer.pack(IS))\n            f.write(struct.pack(endian + ("%dd" % len(string)), *string))\n'
+_PL = '            f.write(LrStruct.pack(L + 1, r0 + 1))\n            f.write(struct.pack(endian + ("%dd" % len(string)), *string))\n'
+RECIPES += [
+    ("C04", "break", ["C04-R11"], F_, _PK,
+     '            if elems < self._rowsCutoff:\n                f.write(struct.pack(endian + ("%dd" % elems), *v))\n            else:\n                f.write(v.tobytes())\n',
+     "dense binary: long columns written with tobytes() (native order whatever `endian`)"),
+    ("C04", "break", ["C04-R11"], F_, _PK, "            f.write(v.tobytes())\n", "dense binary: every column written with tobytes()"),
+    ("C04", "break", ["C04-R11"], F_, _PK, "            v.tofile(f)\n", "dense binary: every column written with tofile()"),
+    ("C04", "break", ["C04-R11"], F_, _PS, "            f.write(colTrailer.pack(IS))\n            f.write(np.asarray(string, dtype=float).tobytes())\n",
+     "binary nonbigmat: strings (call-back of _write_binary_sparse) written as native float64 bytes"),
+    ("C04", "break", ["C04-R11"], F_, _PL, "            f.write(LrStruct.pack(L + 1, r0 + 1))\n            np.asarray(string, dtype='f8').tofile(f)\n",
+     "binary bigmat: strings written with tofile() of a native 'f8' array"),
+    ("C04", "neutral", [], F_, _PK, '            f.write(np.asarray(v, dtype=endian + "f8").tobytes())\n', "dense binary: tobytes() of an array typed with the file's byte order"),
+    ("C04", "neutral", [], F_, _PK, '            v.astype(endian + "f8").tofile(f)\n', "dense binary: tofile() of an array typed with the file's byte order"),
+    ("C04", "neutral", [], F_, _PL, '            f.write(LrStruct.pack(L + 1, r0 + 1))\n            f.write(np.asarray(string, dtype=endian + "f8").tobytes())\n',
+     "binary bigmat: strings as tobytes() of an array typed with the file's byte order"),
+]
+RECIPES += [
+    ("C04", "break", ["C04-R10"], F_, "            if reclen <= 48:\n", "            if reclen < 48:\n",
+     "_decode_format: a little-endian 64-bit file (record length 48) is taken for big-endian"),
+    ("C04", "neutral", [], F_, "            if reclen <= 48:\n", "            if reclen in (24, 48):\n", "_decode_format: the two admissible record lengths as a tuple"),
+]
